@@ -49,4 +49,83 @@ theorem tie_solid_t_fluid_auto (o : Src.Ops K) (aT rf rs cf cl ct : K) :
     Src.solid_t_fluid_auto o aT rf rs cf cl ct =
       solidTFluid (ctrig o) (media rf rs cf cl ct) (snell (ctrig o) aT ct cf) (snell (ctrig o) aT ct cl) aT := rfl
 
+
+/-! ### the per-interface helpers, specialised on (interface kind, incident mode, outgoing mode, unit)
+
+The Python functions dispatch on enum members and on the unit string; the translator decides those conditions for each
+combination the helpers accept and translates the branch that is left.  Each specialisation is the model's
+`transmissionAt` / `reflectionAt` at that combination. -/
+
+theorem tie_transmission_fluid_solid_LL_stress (o : Src.Ops K) (a rf rs cf cl ct : K) :
+    transmissionAt (ctrig o) (media rf rs cf cl ct) .fluidSolid .L .L a false =
+      .ok (Src.transmission_at_interface__fluid_solid_LL_stress o a rf rs cf cl ct) := rfl
+
+theorem tie_transmission_fluid_solid_LL_displacement (o : Src.Ops K) (a rf rs cf cl ct : K) :
+    transmissionAt (ctrig o) (media rf rs cf cl ct) .fluidSolid .L .L a true =
+      .ok (Src.transmission_at_interface__fluid_solid_LL_displacement o a rf rs cf cl ct) := rfl
+
+theorem tie_transmission_fluid_solid_LT_stress (o : Src.Ops K) (a rf rs cf cl ct : K) :
+    transmissionAt (ctrig o) (media rf rs cf cl ct) .fluidSolid .L .T a false =
+      .ok (Src.transmission_at_interface__fluid_solid_LT_stress o a rf rs cf cl ct) := rfl
+
+theorem tie_transmission_fluid_solid_LT_displacement (o : Src.Ops K) (a rf rs cf cl ct : K) :
+    transmissionAt (ctrig o) (media rf rs cf cl ct) .fluidSolid .L .T a true =
+      .ok (Src.transmission_at_interface__fluid_solid_LT_displacement o a rf rs cf cl ct) := rfl
+
+theorem tie_transmission_solid_fluid_LL_stress (o : Src.Ops K) (a rf rs cf cl ct : K) :
+    transmissionAt (ctrig o) (media rf rs cf cl ct) .solidFluid .L .L a false =
+      .ok (Src.transmission_at_interface__solid_fluid_LL_stress o a rf rs cf cl ct) := rfl
+
+theorem tie_transmission_solid_fluid_LL_displacement (o : Src.Ops K) (a rf rs cf cl ct : K) :
+    transmissionAt (ctrig o) (media rf rs cf cl ct) .solidFluid .L .L a true =
+      .ok (Src.transmission_at_interface__solid_fluid_LL_displacement o a rf rs cf cl ct) := rfl
+
+theorem tie_transmission_solid_fluid_TL_stress (o : Src.Ops K) (a rf rs cf cl ct : K) :
+    transmissionAt (ctrig o) (media rf rs cf cl ct) .solidFluid .T .L a false =
+      .ok (Src.transmission_at_interface__solid_fluid_TL_stress o a rf rs cf cl ct) := rfl
+
+theorem tie_transmission_solid_fluid_TL_displacement (o : Src.Ops K) (a rf rs cf cl ct : K) :
+    transmissionAt (ctrig o) (media rf rs cf cl ct) .solidFluid .T .L a true =
+      .ok (Src.transmission_at_interface__solid_fluid_TL_displacement o a rf rs cf cl ct) := rfl
+
+theorem tie_reflection_solid_fluid_LL_stress (o : Src.Ops K) (a rf rs cf cl ct : K) :
+    reflectionAt (ctrig o) (media rf rs cf cl ct) .solidFluid .L .L a false =
+      .ok (Src.reflection_at_interface__solid_fluid_LL_stress o a rf rs cf cl ct) := rfl
+
+theorem tie_reflection_solid_fluid_LL_displacement (o : Src.Ops K) (a rf rs cf cl ct : K) :
+    reflectionAt (ctrig o) (media rf rs cf cl ct) .solidFluid .L .L a true =
+      .ok (Src.reflection_at_interface__solid_fluid_LL_displacement o a rf rs cf cl ct) := rfl
+
+theorem tie_reflection_solid_fluid_LT_stress (o : Src.Ops K) (a rf rs cf cl ct : K) :
+    reflectionAt (ctrig o) (media rf rs cf cl ct) .solidFluid .L .T a false =
+      .ok (Src.reflection_at_interface__solid_fluid_LT_stress o a rf rs cf cl ct) := rfl
+
+theorem tie_reflection_solid_fluid_LT_displacement (o : Src.Ops K) (a rf rs cf cl ct : K) :
+    reflectionAt (ctrig o) (media rf rs cf cl ct) .solidFluid .L .T a true =
+      .ok (Src.reflection_at_interface__solid_fluid_LT_displacement o a rf rs cf cl ct) := rfl
+
+theorem tie_reflection_solid_fluid_TL_stress (o : Src.Ops K) (a rf rs cf cl ct : K) :
+    reflectionAt (ctrig o) (media rf rs cf cl ct) .solidFluid .T .L a false =
+      .ok (Src.reflection_at_interface__solid_fluid_TL_stress o a rf rs cf cl ct) := rfl
+
+theorem tie_reflection_solid_fluid_TL_displacement (o : Src.Ops K) (a rf rs cf cl ct : K) :
+    reflectionAt (ctrig o) (media rf rs cf cl ct) .solidFluid .T .L a true =
+      .ok (Src.reflection_at_interface__solid_fluid_TL_displacement o a rf rs cf cl ct) := rfl
+
+theorem tie_reflection_solid_fluid_TT_stress (o : Src.Ops K) (a rf rs cf cl ct : K) :
+    reflectionAt (ctrig o) (media rf rs cf cl ct) .solidFluid .T .T a false =
+      .ok (Src.reflection_at_interface__solid_fluid_TT_stress o a rf rs cf cl ct) := rfl
+
+theorem tie_reflection_solid_fluid_TT_displacement (o : Src.Ops K) (a rf rs cf cl ct : K) :
+    reflectionAt (ctrig o) (media rf rs cf cl ct) .solidFluid .T .T a true =
+      .ok (Src.reflection_at_interface__solid_fluid_TT_displacement o a rf rs cf cl ct) := rfl
+
+theorem tie_reflection_fluid_solid_LL_stress (o : Src.Ops K) (a rf rs cf cl ct : K) :
+    reflectionAt (ctrig o) (media rf rs cf cl ct) .fluidSolid .L .L a false =
+      .ok (Src.reflection_at_interface__fluid_solid_LL_stress o a rf rs cf cl ct) := rfl
+
+theorem tie_reflection_fluid_solid_LL_displacement (o : Src.Ops K) (a rf rs cf cl ct : K) :
+    reflectionAt (ctrig o) (media rf rs cf cl ct) .fluidSolid .L .L a true =
+      .ok (Src.reflection_at_interface__fluid_solid_LL_displacement o a rf rs cf cl ct) := rfl
+
 end Arim.Tie.C04
